@@ -210,6 +210,20 @@ CHECKS = {
         "as_text/from_text); SHA-256 uninterpreted. The ORDER of server-output steps is not asserted either way (the configuration stores "
         "a recover program).",
         ref="§4 C13"),
+    "C07": dict(
+        text="(i) Routing: for symbolic methods (<= 4 bytes) and URIs (<= 6/11 bytes) against three configurations (one with equal get/post "
+        "verbs) the transform chosen is the get transform iff verb and a get-URI prefix match, else the post transform iff verb and submit "
+        "URI prefix match, responses go to the response transform, anything else raises ValueError. (ii) Sessions: the library's own "
+        "HttpBeaconClient (get_task / send_callback interpreted, httpx.request replaced by a team-server peer) produces every history of "
+        "<= 3/4 steps over {check-in without task, check-in with task, callback} plus a POST carrying two callbacks, for 4/5 configurations "
+        "and the three key-material variants; task data, callback data (0..3 symbolic bytes), callback ids symbolic. A fresh C2Http decodes "
+        "the recorded messages (as objects, and through the raw wire form + parse_raw_http for one configuration / all in thorough) to "
+        "exactly the metadata, task and callback packets sent, in order, and the client itself decodes the task it was sent.",
+        note="Trusted: z3; symx; AES-CBC/HMAC/SHA-256 uninterpreted with their contracts, PKCS#1 contract stub (C05/C06 decide the crypto "
+        "framing itself); the peer encodes task data with the library's server-output transform (transform == reference encoding is C04's "
+        "result); base64 decode-of-encode provenance shortcut (a theorem of the bit-level model, validated each run in C04); one fixed "
+        "Windows version instead of a random choice of seven.",
+        ref="§4 C07"),
 }
 
 NA = {}
